@@ -45,18 +45,22 @@ def main(argv):
             import os
 
             rin = rb.domain_inputs(args.tier, args.seed + 2, "XR", scale=0.25 if args.tier == "quick" else 0.5)
-            res2 = rb.record_domain(rin, os.path.join(d, "reload"), jobs=args.jobs, shards=args.jobs, stages=True, reload=True, heavy=70)
-            stat2 = evaluate(res2, "C06", args.jobs)
-            out2 = explore(res2, args.jobs)
-            for v in stat2["viol"]:
-                for clause in v["bad"]:
-                    rep.violation(clause, {"id": dict(v["id"], reload=True), "stage": STAGE_ORDER[v["sid"] - 1]}, detail={"failed": v["bad"], "history": "to_dict/from_dict between stages"})
-            for v in out2["viol"]:
-                if v["bad"].startswith("BAD:C06-"):
-                    rep.violation(v["bad"][8:], {"id": dict(v["id"], reload=True), "stage": STAGE_ORDER[v["sid"] - 1], "mode": v["mode"]},
-                                  detail={"decision_path_blocks": v["path"], "env": v["env"], "history": "to_dict/from_dict between stages"})
-            rep.coverage["reload_histories"] = {"behaviours": sum(r["ncases"] for r in res2), "product_states": out2["states"]}
-            rep.coverage["states"] = rep.coverage.get("states", 0) + out2["states"] + stat2["states"]
+            # ... and histories in which the graph is HELD while a copy made through the dictionary form is restructured further (the
+            # copy's renamings must not reach the tables of the graph it was copied from)
+            for mode, key, flag, hist in ((True, "reload_histories", "reload", "to_dict/from_dict between stages"),
+                                          ("fork", "held_while_copy_is_restructured", "fork", "a to_dict/from_dict copy is restructured while this graph is held")):
+                res2 = rb.record_domain(rin, os.path.join(d, flag), jobs=args.jobs, shards=args.jobs, stages=True, reload=mode, heavy=70)
+                stat2 = evaluate(res2, "C06", args.jobs)
+                out2 = explore(res2, args.jobs)
+                for v in stat2["viol"]:
+                    for clause in v["bad"]:
+                        rep.violation(clause, {"id": dict(v["id"], **{flag: True}), "stage": STAGE_ORDER[v["sid"] - 1]}, detail={"failed": v["bad"], "history": hist})
+                for v in out2["viol"]:
+                    if v["bad"].startswith("BAD:C06-"):
+                        rep.violation(v["bad"][8:], {"id": dict(v["id"], **{flag: True}), "stage": STAGE_ORDER[v["sid"] - 1], "mode": v["mode"]},
+                                      detail={"decision_path_blocks": v["path"], "env": v["env"], "history": hist})
+                rep.coverage[key] = {"behaviours": sum(r["ncases"] for r in res2), "product_states": out2["states"]}
+                rep.coverage["states"] = rep.coverage.get("states", 0) + out2["states"] + stat2["states"]
         if not args.replay:
             # "... at every stage and after every renaming": the tables clause on graphs EDITED after restructuring - one-step edit
             # histories enumerated by TLC (insert_block / control blocks / join_tails_and_exits, up to two successors merged into one new
